@@ -30,11 +30,17 @@ class Inst:
     self.sig["reset"] = {"name": "reset", "kind": "in", "type": 1, "dims": [], "implicit": True}
     self.subs = {}
     self.frees = {f["name"]: f for f in self.cd.get("frees", [])}
+    self.funcs = {f["name"]: f for f in self.cd.get("funcs", [])}
     for sb in self.cd["subs"]:
       if len(sb["dims"]) > 1:
-        def mk(pre, dims):
+        flat = list(sb.get("cls_list") or [])
+        cnt = [0]
+
+        def mk(pre, dims, sb=sb, flat=flat, cnt=cnt):
           if not dims:
-            return Inst(spec, sb["cls"], pre, self)
+            cn = flat[cnt[0]] if flat else sb["cls"]
+            cnt[0] += 1
+            return Inst(spec, cn, pre, self)
           return [mk("%s[%d]" % (pre, i), dims[1:]) for i in range(dims[0])]
         self.subs[sb["name"]] = mk("%s.%s" % (prefix, sb["name"]), sb["dims"])
       elif sb["dims"]:
@@ -179,8 +185,12 @@ class Ref:
       return e[1]
     if k == "rd":
       return self.read(inst, e[1], env)
-    if k in ("tmpv", "lv"):
+    if k in ("tmpv", "lv", "param"):
       return env[e[1]]
+    if k == "fcall":
+      fn = inst.funcs[e[1]]
+      args = [self.ev(inst, a, env) for a in e[2]]
+      return self.ev(inst, fn["ret"], {p[0]: (v & mask(p[1])) for p, v in zip(fn["params"], args)}) & mask(fn["w"])
     if k == "free":
       return inst.frees[e[1]]["v"]
     if k == "bin":
@@ -262,6 +272,8 @@ class Ref:
         write(key, lo, w, v & mask(w))
       elif k == "tmp":
         env[st[1]] = self.ev(inst, st[2], env)
+        for n2 in (st[3] if len(st) > 3 else []):
+          env[n2] = env[st[1]]
       elif k == "if":
         if self.ev(inst, st[1], env):
           self.run_stmts(inst, st[2], env, write)
@@ -386,6 +398,9 @@ class _Static:
       if x[0] == "rd":
         # walk_exprs also yields the index expressions themselves
         reads.update(self.path_bits(inst, x[1], set()))
+      elif x[0] == "fcall":
+        # the callee's reads are the caller's reads (transitively)
+        self.expr_bits(inst, inst.funcs[x[1]]["ret"], reads)
 
   def stmts(self, inst, stmts, reads, writes):
     for st in stmts:
